@@ -156,6 +156,12 @@ let pick (rng : Random.State.t) (p : position) (gs : (((n * n) * n) * n) list) =
 let gen_mv_of (g : ((n * n) * n) * n) : mv = let (((_, f), t), pr) = g in { m_from = f; m_to = t; m_promo = pr }
 
 (* ---------------------------------------------------------------- request handling *)
+let good_tbl : (string, bool) Hashtbl.t = Hashtbl.create 1024
+let good_memo (fen : string) p =
+  match Hashtbl.find_opt good_tbl fen with
+  | Some b -> b
+  | None -> let b = good_pos_b p in Hashtbl.replace good_tbl fen b; b
+
 let handle (line : string) : string =
   let f = Array.of_list (String.split_on_char '\t' line) in
   match f.(0) with
@@ -187,13 +193,13 @@ let handle (line : string) : string =
     let ms = List.map gen_mv_of gs in
     let st = abs_state p in
     let sl = legal st in
-    Printf.sprintf "moves=%s count=%s caps=%s iscap=%s pieces=%s spec=%s speccaps=%s inD=%s chk=%s"
+    Printf.sprintf "moves=%s count=%s caps=%s iscap=%s pieces=%s spec=%s speccaps=%s inD=%s chk=%s good=%s"
       (mvs_str ms) (string_of_n (count_moves p)) (mvs_str (legal_captures p))
       (String.concat "" (List.map (fun m -> b01 (is_capture p m.m_from m.m_to)) ms))
       (String.concat "" (List.map (fun (((pc, _), _), _) -> string_of_n pc) gs))
       (sorted_mvs (List.map (enc p) sl))
       (sorted_mvs (List.map (enc p) (List.filter (captures st) sl)))
-      (b01 (in_D p)) (b01 (in_check p))
+      (b01 (in_D p)) (b01 (in_check p)) (b01 (good_pos_b p))
   | "att" ->
     let p = parse_fen f.(1) in
     let mask = n_of_string f.(2) in
@@ -212,9 +218,9 @@ let handle (line : string) : string =
       let m = mv_of_string f.(2) in
       let q = makemove true p m in
       let q0 = makemove false p m in
-      Printf.sprintf "%s pred=%s calc=%s nohash=%s valid=%s fen=%s spec=%s abs=%s inD=%s prem=%s kprem=%s" (dump_pos q) (string_of_n (predict_hash p m))
+      Printf.sprintf "%s pred=%s calc=%s nohash=%s valid=%s fen=%s spec=%s abs=%s inD=%s prem=%s kprem=%s good=%s" (dump_pos q) (string_of_n (predict_hash p m))
         (string_of_n (calculate_hash q)) (string_of_n q0.hash) (b01 (validate q = None)) (fen_of q)
-        (sstate_str (apply (abs_state p) (dec p m))) (sstate_str (abs_state q)) (b01 (in_D q)) (b01 (refines_b p m)) (b01 (key_move_b p m))
+        (sstate_str (apply (abs_state p) (dec p m))) (sstate_str (abs_state q)) (b01 (in_D q)) (b01 (refines_b p m)) (b01 (key_move_b p m)) (b01 (good_memo f.(1) p))
   | "play" ->
     let p0 = parse_fen f.(1) in
     let toks = if Array.length f > 2 && f.(2) <> "" then String.split_on_char ' ' f.(2) else [] in
